@@ -2,6 +2,7 @@ package checks
 
 import (
 	"fmt"
+	"hash/fnv"
 	mrand "math/rand/v2"
 
 	"github.com/gmrtd/gmrtd/cms"
@@ -193,8 +194,8 @@ type persoPlan struct {
 
 func (pp persoPlan) String() string {
 	o := pp.o
-	return fmt.Sprintf("access=%v param=%d suite=%v can=%v layout=%v dgs=%v unsup=%v dg2=%d aa=%+v ca=%+v untrusted=%v digest=%v extra-access-infos=%d@%d | maxLe=%d cap=%d lecap=%d ext=%v short=%v skipimg=%v",
-		o.Access, o.ParamID, o.Suite, o.CAN, o.Layout, o.DGs, o.Unsupported, o.DG2Size, o.AA, o.CA, o.Untrusted, o.Digest, len(o.ExtraAccessInfos), o.OwnInfoPos, pp.maxLe, pp.chipCap, pp.leCap, pp.extended, pp.shortRnd, pp.skipImg)
+	return fmt.Sprintf("access=%v param=%d suite=%v can=%v layout=%v dgs=%v unsup=%v dg2=%d aa=%+v ca=%+v untrusted=%v digest=%v extra-access-infos=%d@%d sod-order=%v | maxLe=%d cap=%d lecap=%d ext=%v short=%v skipimg=%v",
+		o.Access, o.ParamID, o.Suite, o.CAN, o.Layout, o.DGs, o.Unsupported, o.DG2Size, o.AA, o.CA, o.Untrusted, o.Digest, len(o.ExtraAccessInfos), o.OwnInfoPos, o.SODOrder, pp.maxLe, pp.chipCap, pp.leCap, pp.extended, pp.shortRnd, pp.skipImg)
 }
 
 var planDG2Sizes = []int{0, 0, 300, 380, 381, 382, 383, 384, 385, 508, 509, 510, 511, 512, 513, 1000, 4096, 16000, 32767, 32768, 32769, 40000, 65535, 65539}
@@ -327,5 +328,17 @@ func randPlan(r *mrand.Rand, big bool) persoPlan {
 		}
 	}
 	pp.skipImg = r.IntN(6) == 0
+	// order of the DataGroupHash entries in the security object (a SEQUENCE OF: no ordering
+	// rule): 1/4 descending, 1/4 shuffled. Derived from the plan drawn so far instead of from r,
+	// so that the personalisation that follows sees the same PRNG stream as without this
+	// dimension (same files, same sizes; only the order of the list and its signature differ).
+	h := fnv.New64a()
+	h.Write([]byte(pp.String()))
+	switch v := h.Sum64(); v % 4 {
+	case 0:
+		o.SODOrder = perso.SODDescending
+	case 1:
+		o.SODOrder, o.SODOrderSeed = perso.SODShuffled, v>>2
+	}
 	return pp
 }
